@@ -334,6 +334,10 @@ struct Case {
     /// machinery control: adds `PX_ZZZ=1` (an unknown key) to the environment
     #[serde(default)]
     control_unknown_env: bool,
+    /// history: before the load under observation the same process loads the configuration of the OTHER profile
+    /// (explicit `.profile(..)`) from the same directory into the same target; a load must not depend on earlier loads
+    #[serde(default)]
+    prelude_other_profile: bool,
 }
 
 fn name_of<T: Serialize>(v: T) -> String {
@@ -684,7 +688,17 @@ fn child_main(argv: &[String]) -> ! {
     // argv: <target> <profile type: derived|manual> <explicit-profile|-> <confdir|->
     let arg = |i: usize| argv.get(i).cloned().unwrap_or_else(|| "-".into());
     let (target, ptype, explicit, confdir) = (arg(0), arg(1), arg(2), arg(3));
+    let prelude = arg(4);
     let run = move || -> Value {
+        // history: an earlier load of another profile in this very process (its result is discarded)
+        match (ptype.as_str(), prelude.as_str()) {
+            (_, "-") => {}
+            ("derived", "dev") => drop(run_loader(Some(Profile::Development), &confdir, &target)),
+            ("derived", "prod") => drop(run_loader(Some(Profile::Production), &confdir, &target)),
+            ("manual", "prod.eu") => drop(run_loader(Some(Region::ProdEu), &confdir, &target)),
+            ("manual", "prod.us") => drop(run_loader(Some(Region::ProdUs), &confdir, &target)),
+            (t, p) => return json!({"outcome": "child-usage", "msg": format!("prelude profile type {t} / profile {p}")}),
+        }
         match (ptype.as_str(), explicit.as_str()) {
             ("derived", "-") => run_loader::<Profile>(None, &confdir, &target),
             ("derived", "dev") => run_loader(Some(Profile::Development), &confdir, &target),
@@ -764,6 +778,17 @@ impl Observed {
 
 static SPAWNED: AtomicUsize = AtomicUsize::new(0);
 
+/// The profile whose file `setup` writes next to the case's own (tag `other`).
+fn other_profile_name(p: PName) -> &'static str {
+    match p {
+        PName::Dev => "prod",
+        PName::Prod => "dev",
+        PName::ProdEu => "prod.us",
+        PName::ProdUs => "prod.eu",
+        _ => "-",
+    }
+}
+
 fn run_case(case: &Case, sc: &mut Scratch, exe: &Path) -> (Observed, Setup) {
     let su = setup(case, sc);
     let mut cmd = Command::new(exe);
@@ -772,6 +797,7 @@ fn run_case(case: &Case, sc: &mut Scratch, exe: &Path) -> (Observed, Setup) {
         .arg(case.profile.ptype())
         .arg(su.explicit.as_deref().unwrap_or("-"))
         .arg(su.confdir_arg.as_deref().unwrap_or("-"))
+        .arg(if case.prelude_other_profile { other_profile_name(case.profile) } else { "-" })
         .env_clear()
         .envs(su.env.iter().map(|(k, v)| (k.as_str(), v.as_str())))
         .current_dir(&su.cwd)
@@ -1085,7 +1111,7 @@ impl Slice {
                                 dmode: *dm,
                                 target: *t,
                                 files: self.files,
-                                control_unknown_env: false,
+                                control_unknown_env: false, prelude_other_profile: false,
                             });
                         }
                     }
@@ -1171,6 +1197,26 @@ fn plan(tier: verif_common::Tier) -> (Vec<Case>, Vec<Value>) {
         let generated = s.expand(&mut set);
         desc.push(json!({"slice": s.name, "assignments": s.assigns.len(), "generated": generated, "new_distinct_cases": set.len() - before}));
     }
+    // histories: the same cases again, preceded (in the same process) by a load of the other profile from the same directory
+    let tied_set: BTreeSet<Assign> = tied_assigns().into_iter().collect();
+    let with_history: Vec<Case> = set
+        .iter()
+        .filter(|c: &&Case| {
+            matches!(c.profile, PName::Dev | PName::Prod | PName::ProdEu | PName::ProdUs)
+                && matches!(c.pmode, PMode::Explicit | PMode::EnvValid)
+                && matches!(c.files, FMode::All)
+                && (tier.is_thorough() || (matches!(c.target, Target::Option | Target::Required) && tied_set.contains(&c.assign)))
+        })
+        .cloned()
+        .map(|mut c| {
+            c.prelude_other_profile = true;
+            c
+        })
+        .collect();
+    let n_hist = with_history.len();
+    set.extend(with_history);
+    desc.push(json!({"slice": "histories: every case of the slices above with profile in {dev, prod, prod.eu, prod.us}, pmode in {explicit, env-valid}, all files present (quick: targets option/required, tied assignments), preceded in the same process by a load of the OTHER profile from the same directory into the same target",
+                     "generated": n_hist, "new_distinct_cases": n_hist}));
     (set.into_iter().collect(), desc)
 }
 
@@ -1185,7 +1231,7 @@ fn control_cases() -> Vec<Case> {
             dmode: DMode::RelCwdDefault,
             target: Target::DenyUnknown,
             files: FMode::All,
-            control_unknown_env: true,
+            control_unknown_env: true, prelude_other_profile: false,
         })
         .collect()
 }
